@@ -557,6 +557,7 @@ def run_tuner_suite(ctx):
         compare_model(ctx, o, table, meta, ans[2 * i], ans[2 * i + 1])
     # ---------------- (c) a real optimizer end to end (costs are whatever it finds; the oracle reads them from the tuner's table)
     real_optimizer_cases(ctx)
+    subgrid_real_cases(ctx)
 
 
 class Sphere(Task):
@@ -599,6 +600,47 @@ def real_optimizer_cases(ctx):
             cfg = tuner._algorithm.configuration.model_dump()
             if any(cfg.get(k) != v for k, v in tuner.best_parameters.items()):
                 ctx.fail("C19/HyperTuner.resolve/not-run-with-best-parameters", f"configuration after resolve {cfg}, best {tuner.best_parameters}", S_TUNER, meta)
+
+
+def subgrid_real_cases(ctx):
+    """a real optimizer (pydantic configuration) tuned over SUB-GRIDS WITH DIFFERENT KEY SETS: every evaluation must run under exactly
+    `Config(**point)` — keys a point does not name take the configuration class's defaults, never what an earlier point left behind — and
+    `resolve()` under `Config(**best_parameters)`."""
+    from pyvolutionary import BiogeographyBasedOptimization, BiogeographyBasedOptimizationConfig, ContinuousMultiVariable
+    from pyvolutionary.models import EarlyStopping
+    seen = []
+
+    class Recording(BiogeographyBasedOptimization):
+        def optimize(self, task, mode=None, workers=None):
+            seen.append(self._config.model_dump() if self._config is not None else None)
+            return super().optimize(task, mode=mode, workers=workers)
+
+    req = {"max_cycles": [2], "population_size": [10], "n_elites": [3], "p_m": [0.05]}
+    for d, grids in (("min", [dict(req, fitness_error=[None, 0.5]), dict(req, max_cycles=[3, 4])]),
+                     ("max", [dict(req, early_stopping=[EarlyStopping(patience=2, min_delta=0.5)]), dict(req, p_m=[0.1, 0.2]), dict(req, fitness_error=[0.9])])):
+        task = Sphere(variables=[ContinuousMultiVariable(name="x", lower_bounds=[-5.0] * 2, upper_bounds=[5.0] * 2)], minmax=d)
+        meta = {"mode": "real-optimizer-subgrids", "dir": d, "grid": repr(grids), "n_trials": 2}
+        seen.clear()
+        tuner = HyperTuner(Recording(), grids)
+        import contextlib, io
+        with inline_pool(), contextlib.redirect_stdout(io.StringIO()):
+            ok, e = call(lambda: tuner.execute(task=task, n_trials=2))
+        ctx.case((S_TUNER, "real-subgrids", d), kind=f"tuner:real-subgrids:{d}")
+        if not ok:
+            ctx.fail("C19/HyperTuner.execute/raises", f"{type(e).__name__}: {e}", S_TUNER, meta)
+            continue
+        pts = own_points(grids)
+        want = [BiogeographyBasedOptimizationConfig(**p).model_dump() for p in pts for _ in range(2)]
+        if seen != want:
+            bad = next((i for i, (a, b) in enumerate(zip(seen, want)) if a != b), min(len(seen), len(want)))
+            ctx.fail("C19/HyperTuner.execute/evaluation-not-run-under-its-own-grid-point", f"evaluation {bad} (point {pts[bad // 2] if bad // 2 < len(pts) else '?'}): ran under "
+                     f"{seen[bad] if bad < len(seen) else None}, expected {want[bad] if bad < len(want) else None}; {len(seen)} evaluations for {len(pts)} points × 2 trials", S_TUNER, meta)
+            continue
+        seen.clear()
+        with inline_pool(), contextlib.redirect_stdout(io.StringIO()):
+            ok, res = call(tuner.resolve)
+        if not ok or seen != [BiogeographyBasedOptimizationConfig(**tuner.best_parameters).model_dump()]:
+            ctx.fail("C19/HyperTuner.resolve/not-run-with-best-parameters", f"resolve ran under {seen}, best parameters {tuner.best_parameters}", S_TUNER, meta)
 
 
 def run(ctx):
